@@ -107,3 +107,12 @@ e1("C17", "Object trees whose classes define pre_/post_randomize are randomized 
           "pre before any solver activity, post after the last solver event with final values - observed on the real run; and z3 proves for all "
           "random-field values that the solver saw the values pre_randomize assigned (equivalence with the reference built from them).",
    "event log vs solver-trace positions (observation) + z3 equivalence with the reference using pre_randomize's assignments", "DESIGN.md section 6 C17")
+
+e1("C04", "Translation validation for list constraints (scalar/enum/object lists, fixed and random size; foreach with element/index/index arithmetic/"
+          "nesting, sum, product, unique, unique_vec, size, membership; append/clear/assign histories). For random-size lists the reference guards "
+          "each element-wise meaning by index < size over element variables up to the stated bound, so z3 decides for ALL admitted sizes and element "
+          "values that the asserted formula implies the constraints on the visible elements, and - with the invisible pre-allocated elements "
+          "existentially quantified - that no visible solution is excluded. len()/size/indexing/iteration are compared on the real object after each "
+          "call and list operation. Known findings (stale-size sum/product, membership in random-size lists, size-guarded neighbour access, "
+          "constraints on invisible elements) are listed in known_findings.json.",
+   "translation validation with size-guarded reference; quantified (exists invisible elements) over-constraint query; facade observation", "DESIGN.md section 6 C04")
